@@ -125,6 +125,25 @@ def test_ctx_violation_and_blame():
         raise AssertionError("harness exception swallowed")
 
 
+def test_family_timeout():
+    import types
+    mod = types.SimpleNamespace(FAMILIES={}, __name__="toy")
+
+    def spin(ctx, block):
+        ctx.tick(1, nontrivial=1)
+        while True:      # a tree under test that never terminates (python-level loop)
+            pass
+
+    mod.FAMILIES = {"spin": spin}
+    os.environ["VERIF_FAMILY_TIMEOUT"] = "1"
+    try:
+        ctx = Ctx("T00", "quick", 0, module=mod)
+        ctx.run("spin", {})
+    finally:
+        del os.environ["VERIF_FAMILY_TIMEOUT"]
+    assert list(ctx.violations) == [("family:spin", "hang:family_timeout")], ctx.violations
+
+
 def main():
     setup_process()
     tests = [v for k, v in sorted(globals().items()) if k.startswith("test_")]
